@@ -149,13 +149,13 @@ fire('gen-eq-ignores-final', ['C08'], ['GEN-3'], 'DFAState.__eq__ ignores finali
      (GEN, "        if self.is_final != other.is_final:\n            return False", "        if False:\n            return False"))
 fire('gen-merge-unequal', ['C08'], ['GEN-3'], 'states with the same number of arcs are merged',
      (GEN, "                if state_i == state_j:", "                if state_i == state_j or (len(state_i.arcs) == len(state_j.arcs) > 3):"))
-fire('gr-left-recursion', ['C06', 'C08', 'C02'], ['GR-2'], 'a rule of grammar 3.9 becomes left recursive',
+fire('gr-left-recursion', ['C06', 'C02'], ['GR-2'], 'a rule of grammar 3.9 becomes left recursive',
      (G('39'), "\nterm: factor (('*'|'@'|'/'|'%'|'//') factor)*\n", "\nterm: term ('*'|'@'|'/'|'%'|'//') factor | factor\n"))
-fire('gr-first-first', ['C06', 'C08', 'C02'], ['GR-3'], 'two alternatives of one rule start with the same token',
+fire('gr-first-first', ['C06', 'C02'], ['GR-3'], 'two alternatives of one rule start with the same token',
      (G('310'), "\ndel_stmt: 'del' exprlist\n", "\ndel_stmt: 'pass' exprlist\n"))
-fire('gr-first-follow', ['C06', 'C08'], ['GR-4'], 'an optional tail can start with a token that may follow the rule',
+fire('gr-first-follow', ['C06'], ['GR-4'], 'an optional tail can start with a token that may follow the rule',
      (G('312'), "\ndotted_name: NAME ('.' NAME)*\n", "\ndotted_name: NAME ('.' NAME)* ['as' NAME]\n"))
-fire('gr-unknown-token', ['C06', 'C08', 'C02'], ['GR-1'], 'a grammar mentions a token type that does not exist',
+fire('gr-unknown-token', ['C06', 'C02'], ['GR-1'], 'a grammar mentions a token type that does not exist',
      (G('38'), "\npass_stmt: 'pass'\n", "\npass_stmt: 'pass' | BACKQUOTE\n"))
 fire('gr-unproducible-terminal', ['C06', 'C12'], ['GR-5'], 'a grammar uses an operator the tokenizer never produces',
      (G('311'), "augassign: ('+=' |", "augassign: ('?=' | '+=' |"))
@@ -380,7 +380,7 @@ silent('s-recovery-tokenize-alias', ['C07'], '_recovery_tokenize without the loc
        (PYPARSER, "                o = self._omit_dedent_list\n                if o and o[-1] == self._indent_counter:\n                    o.pop()", "                if self._omit_dedent_list and self._omit_dedent_list[-1] == self._indent_counter:\n                    self._omit_dedent_list.pop()"))
 silent('s-tokenize-endpos', ['C01', 'C09', 'C02'], 'epilogue computes end_pos inline',
        (TOK, "    end_pos = lnum, max_\n", "    end_pos = (lnum, max_)\n"))
-fire('tokenize-indent-order', ['C09', 'C04'], ['TOK-4'], 'push on the indentation stack before yielding INDENT: the incremental parser looks at len(indents) when the token after a NEWLINE arrives (was listed as harmless; 10 diff-parser tests fail with it)',
+fire('tokenize-indent-order', ['C04'], ['TOK-4'], 'push on the indentation stack before yielding INDENT: the incremental parser looks at len(indents) when the token after a NEWLINE arrives (was listed as harmless; 10 diff-parser tests fail with it)',
        (TOK, "                        yield PythonToken(INDENT, '', spos, '')\n                        indents.append(indent_start)", "                        indents.append(indent_start)\n                        yield PythonToken(INDENT, '', spos, '')"))
 silent('s-tokenize-whitespace-class-order', ['C09', 'C10', 'C01'], 'character class written in another order',
        (TOK, "    Whitespace = r'[ \\f\\t]*'", "    Whitespace = r'[\\t\\f ]*'"))
@@ -598,7 +598,7 @@ fire('norm11-bom-cleared-after-newline-only', ['C20', 'C13', 'C09'], ['NORM-11']
      (PREFIX, "            column = -start\n            # The BOM has no width, but only the first line contains it.\n            bom = False\n", "            column = -start\n"),
      (PREFIX, "        if type_ == 'bom':\n            bom = True\n", "        if type_ == 'bom':\n            bom = True\n        elif type_ == 'newline':\n            bom = False\n"))
 
-fire('tok4-error-dedent-store-before-yield', ['C04', 'C09'], ['TOK-4'], 'the ERROR_DEDENT branch rewrites the top of the indentation stack before yielding (rt6-C04)',
+fire('tok4-error-dedent-store-before-yield', ['C04'], ['TOK-4'], 'the ERROR_DEDENT branch rewrites the top of the indentation stack before yielding (rt6-C04)',
      (TOK, "                yield PythonToken(ERROR_DEDENT, '', (lnum, start), '')\n                indents[-1] = start\n", "                indents[-1] = start\n                yield PythonToken(ERROR_DEDENT, '', (lnum, start), '')\n"))
 
 # TOK-3 typestate
